@@ -106,6 +106,7 @@ const FAULTS: &[&str] = &[
   "visibility:private-class-inferred",
   "interface:several-members-missing",
   "interface:second-instantiation-unsatisfied",
+  "wrong-type:same-named-class-of-another-module",
 ];
 
 pub fn fault_kinds() -> &'static [&'static str] {
@@ -442,10 +443,40 @@ pub fn inject(p: &mut ProgramIr, t: &mut Tape, kind_idx: usize) -> Option<Fault>
       }
     });
     if let Some(site) = applied {
+      if let Some(name) = site.split(":twin-of:").nth(1) {
+        // module TwinModule declares its own class `name` and a factory whose result type names it
+        let twin_ty = Ty::Class(vec![TWIN_MODULE.into()], name.to_string(), vec![]);
+        let twin = Class {
+          name: name.to_string(),
+          is_interface: false,
+          private: false,
+          tparams: vec![],
+          typedef: TypeDef::Struct(vec![("twinField".into(), Ty::Int, true)]),
+          implements: vec![],
+          members: vec![Member { name: "make".into(), is_method: false, is_public: true, tparams: vec![], params: vec![], ret: twin_ty.clone(), body: Some(Expr::new(twin_ty.clone(), EK::StaticCall { module: vec![], class: name.to_string(), member: "init".into(), targs: vec![], args: vec![Expr::new(Ty::Int, EK::Int(0))] })) }],
+        };
+        let factory = Class {
+          name: format!("{name}TwinFactory"),
+          is_interface: false,
+          private: false,
+          tparams: vec![],
+          typedef: TypeDef::None,
+          implements: vec![],
+          members: vec![Member { name: "make".into(), is_method: false, is_public: true, tparams: vec![], params: vec![], ret: twin_ty.clone(), body: Some(Expr::new(twin_ty, EK::StaticCall { module: vec![], class: name.to_string(), member: "make".into(), targs: vec![], args: vec![] })) }],
+        };
+        p.modules.push(ModuleIr { path: vec![TWIN_MODULE.into()], classes: vec![twin, factory] });
+      }
       return Some(Fault { kind, site: format!("{cname}.{mname}:{site}"), module: path });
     }
   }
   None
+}
+
+const TWIN_MODULE: &str = "TwinModule";
+
+/// an argument whose type is a non-generic user class (a same-named class of another module can stand in for it)
+fn twin_candidate(a: &Expr) -> bool {
+  matches!(&a.ty, Ty::Class(m, n, targs) if targs.is_empty() && m.first().map(|x| x.as_str()) != Some("std") && !m.is_empty() && n != "Cmp")
 }
 
 fn is_site(kind: &str, e: &Expr) -> bool {
@@ -457,6 +488,11 @@ fn is_site(kind: &str, e: &Expr) -> bool {
       // calls with inferred type arguments (Hof.*) give no guarantee: a different argument type may simply solve differently
       EK::StaticCall { args, class, .. } => !args.is_empty() && args.iter().all(|a| concrete(&a.ty)) && class != "Process" && class != "Hof",
       EK::MethodCall { args, method, .. } => !args.is_empty() && args.iter().all(|a| concrete(&a.ty)) && method != "push" && method != "set",
+      _ => false,
+    },
+    "wrong-type:same-named-class-of-another-module" => match &e.kind {
+      EK::StaticCall { args, class, .. } => class != "Process" && class != "Hof" && args.iter().any(twin_candidate),
+      EK::MethodCall { args, method, .. } => method != "push" && method != "set" && args.iter().any(twin_candidate),
       _ => false,
     },
     "arity:argument-added" => matches!(&e.kind, EK::StaticCall { .. } | EK::MethodCall { .. }),
@@ -552,6 +588,19 @@ fn apply(kind: &str, e: &mut Expr, pick: u32) -> Option<String> {
       let ty = args[i].ty.clone();
       args[i] = wrong_typed(&ty, &mut t);
       Some(format!("argument#{i}"))
+    }
+    "wrong-type:same-named-class-of-another-module" => {
+      let args = match &mut e.kind {
+        EK::StaticCall { args, .. } | EK::MethodCall { args, .. } => args,
+        _ => return None,
+      };
+      let cands: Vec<usize> = (0..args.len()).filter(|i| twin_candidate(&args[*i])).collect();
+      let i = cands[t.choose(cands.len())];
+      let Ty::Class(_, name, _) = args[i].ty.clone() else { return None };
+      // a value of the class `name` declared in module TwinModule, obtained without importing that class
+      let twin_ty = Ty::Class(vec![TWIN_MODULE.into()], name.clone(), vec![]);
+      args[i] = Expr::new(twin_ty, EK::StaticCall { module: vec![TWIN_MODULE.into()], class: format!("{name}TwinFactory"), member: "make".into(), targs: vec![], args: vec![] });
+      Some(format!("argument#{i}:twin-of:{name}"))
     }
     "arity:argument-removed" => {
       let args = match &mut e.kind {
